@@ -22,9 +22,9 @@ Ck(prop, name, cond, detail) == IF cond THEN TRUE ELSE Viol(prop, name, detail)
 POrd(r) == [status |-> r.status, bet |-> r.bet, m |-> r.m, rem |-> r.rem, seq |-> r.seq, live |-> r.live,
             price |-> r.price, newp |-> r.newp, size |-> r.size]
 PState(st) == [ord |-> [o \in DOMAIN st.ord |-> POrd(st.ord[o])], x |-> st.x, xseq |-> st.xseq, pool |-> st.pool,
-               hq |-> st.hq, polled |-> st.polled]
+               wire |-> st.wire, hq |-> st.hq, polled |-> st.polled]
 \* the event as the model takes it
-Ev(e) == IF e.ev = "run" THEN [ev |-> "run", a |-> [kind |-> e.a.kind, oc |-> e.a.oc, codes |-> e.a.codes, missing |-> SeqToSet(e.a.missing)]]
+Ev(e) == IF e.ev = "call" THEN [ev |-> "call", a |-> [kind |-> e.a.kind, oc |-> e.a.oc, codes |-> e.a.codes, missing |-> SeqToSet(e.a.missing)]]
          ELSE IF e.ev = "req" THEN [ev |-> "req", a |-> [txn |-> e.a.txn],
                                     reqs |-> [i \in DOMAIN e.reqs |-> [kind |-> e.reqs[i].kind, o |-> e.reqs[i].o, price |-> e.reqs[i].price, size |-> e.reqs[i].size]]]
          ELSE [ev |-> e.ev, a |-> e.a]
@@ -35,7 +35,7 @@ LayerR(pre, e) ==
         got == PState(e.st)
     IN IF want = got THEN TRUE
        ELSE Drift(e.ev, <<"ord", {<<o, IF o \in DOMAIN want.ord THEN want.ord[o] ELSE <<>>, IF o \in DOMAIN got.ord THEN got.ord[o] ELSE <<>>>> : o \in DiffOrd(want.ord, got.ord)},
-                         "x", DiffOrd(want.x, got.x), "pool", want.pool = got.pool, "hq", want.hq = got.hq,
+                         "x", DiffOrd(want.x, got.x), "pool", want.pool = got.pool, "wire", <<want.wire, got.wire>>, "hq", want.hq = got.hq,
                          "seq", <<want.xseq, got.xseq, want.polled, got.polled>>>>)
 
 \* the verdict of every request is the model's (judged against the state the request met, which the driver
@@ -50,13 +50,13 @@ P_C03(pre, e) ==
           /\ Ck("C03", "RequestGuards",
                 ~(q.r = "ACCEPT" /\ q.kind \in {"CANCEL", "UPDATE"} /\ ~(q.before.status = "EXECUTABLE" /\ q.before.bet)), <<q.kind, q.o, q.before.status>>)
           /\ Ck("C03", "InFlightRejected",
-                ~(q.r = "ACCEPT" /\ q.kind \in {"CANCEL", "UPDATE"} /\ \E j \in DOMAIN pre.pool : q.o \in SeqToSet(pre.pool[j].orders)),
-                <<q.kind, q.o, pre.pool>>)
+                ~(q.r = "ACCEPT" /\ q.kind \in {"CANCEL", "UPDATE"} /\ \E j \in DOMAIN Outstanding(pre) : q.o \in SeqToSet(Outstanding(pre)[j].orders)),
+                <<q.kind, q.o, Outstanding(pre)>>)
           /\ Ck("C03", "RejectedNoEffect",
                 ~(q.r \in {"ERROR", "REFUSE"} /\ q.kind # "PLACE" /\ "before" \in DOMAIN q /\ POrd(q.before) # POrd(q.after)), <<q.kind, q.o, q.r>>)
     /\ Ck("C03", "OneInFlight", \A o \in DOMAIN post.ord : InFlightCount(post, o) <= 1, {o \in DOMAIN post.ord : InFlightCount(post, o) > 1})
     /\ Ck("C03", "InFlightStatusWhileOutstanding", InFlightWrong(post) = {}, InFlightWrong(post))
-    /\ (e.ev = "run" => Ck("C03", "NoEscapingException", e.a.err = "", e.a.err))
+    /\ (e.ev \in {"resp", "nobuild"} => Ck("C03", "NoEscapingException", e.a.err = "", e.a.err))
 
 StepOK(pre, e) ==
     /\ ("R" \in Props => LayerR(pre, e))
